@@ -33,10 +33,8 @@ Proof.
   destruct (l_svcs st !! id) as [e|] eqn:L; [|split; [apply AllOk_intro; auto|left; exact L]].
   destruct (se_del e) eqn:D.
   - unfold delete_service, push. cbn. split.
-    + apply AllOk_intro; auto.
-      * eapply step_wf_local; [eapply St_delsvc_ok; eauto|exact W].
-      * apply all_ok_snoc; auto.
-      * rewrite dereg_svc_node. exact Hn.
+    + refine (conj eq_refl (conj eq_refl (conj _ (conj _ (conj _ _))))); [|apply all_ok_snoc; auto|rewrite dereg_svc_node; exact Hn|exact Ln].
+      eapply (step_wf_local g st c); [eapply St_delsvc_ok; eauto|exact W].
     + left. apply lookup_delete.
   - destruct (se_sync e) eqn:S; [split; [apply AllOk_intro; auto|right; eauto]|].
     destruct (W1 id e L D) as [d F]. rewrite F.
@@ -48,11 +46,10 @@ Proof.
       apply stamp_is_Some. right. assert (dk = dx) by congruence. subst dk. rewrite Bx, reg_svcs_lookup.
       destruct (decide (id = id)); [eauto|contradiction]. }
     rewrite R. cbn. split.
-    + apply AllOk_intro; auto.
-      * eapply step_wf_local; [eapply St_svc_ok; eauto|exact W].
-      * apply all_ok_snoc; auto.
+    + refine (conj eq_refl (conj eq_refl (conj _ (conj _ (conj _ _))))); [|apply all_ok_snoc; auto| |reflexivity].
+      * eapply (step_wf_local g st c); [eapply St_svc_ok; eauto|exact W].
       * apply cat_register_Some in R as (Hnode & _). rewrite Hnode, Hn. apply reg_node_same.
-    + right. exists (se_set_sync true e). rewrite lookup_insert. auto.
+    + right. exists (se_set_sync true e). cbn. rewrite lookup_insert. auto.
 Qed.
 
 Lemma step_chk_ok g a id :
@@ -63,9 +60,8 @@ Proof.
   destruct (l_chks st !! id) as [e|] eqn:L; [|split; [apply AllOk_intro; auto|left; exact L]].
   destruct (ce_del e) eqn:D.
   - unfold delete_check, push. cbn. split.
-    + apply AllOk_intro; auto.
-      * eapply step_wf_local; [eapply St_delchk_ok; eauto|exact W].
-      * apply all_ok_snoc; auto.
+    + refine (conj eq_refl (conj eq_refl (conj _ (conj _ (conj _ _))))); [|apply all_ok_snoc; auto|exact Hn|exact Ln].
+      eapply (step_wf_local g st c); [eapply St_delchk_ok; eauto|exact W].
     + left. apply lookup_delete.
   - destruct (ce_sync e) eqn:S; [split; [apply AllOk_intro; auto|right; eauto]|].
     destruct (W2 id e L D) as (d & F & Hs). rewrite F.
@@ -76,25 +72,24 @@ Proof.
       destruct (W1 _ s Ls Ds) as [sd Fs]. unfold sync_sv. rewrite Ls, Ds, Fs, reg_svcs_lookup.
       destruct (decide (ck_sid d = ck_sid d)); [eauto|contradiction]. }
     rewrite R. cbn. split.
-    + apply AllOk_intro; auto.
-      * eapply step_wf_local; [eapply St_chk_ok; eauto|exact W].
-      * apply all_ok_snoc; auto.
+    + refine (conj eq_refl (conj eq_refl (conj _ (conj _ (conj _ _))))); [|apply all_ok_snoc; auto| |reflexivity].
+      * eapply (step_wf_local g st c); [eapply St_chk_ok; eauto|exact W].
       * apply cat_register_Some in R as (Hnode & _). rewrite Hnode, Hn. apply reg_node_same.
-    + right. exists (ce_set_sync true e). rewrite lookup_insert. auto.
+    + right. exists (ce_set_sync true e). cbn. rewrite lookup_insert. auto.
 Qed.
 
 Lemma done_s_step g st c st' c' ev id : Step g st c st' c' ev -> done_s st id -> done_s st' id.
 Proof.
-  intros H Hd. destruct (l_svcs st' !! id) as [e'|] eqn:L'; [|left; reflexivity].
-  destruct (step_svcs_back _ _ _ _ _ _ _ _ H L') as (e1 & L1 & S1). right. exists e'. split; [reflexivity|].
+  intros H Hd. destruct (l_svcs st' !! id) as [e'|] eqn:L'; [|left; exact L'].
+  destruct (step_svcs_back _ _ _ _ _ _ _ _ H L') as (e1 & L1 & S1). right. exists e'. split; [exact L'|].
   destruct Hd as [N|(e & L & D & S)]; [congruence|]. assert (e1 = e) by congruence. subst e1.
   destruct S1 as [->| ->]; cbn; auto.
 Qed.
 
 Lemma done_c_step g st c st' c' ev id : Step g st c st' c' ev -> done_c st id -> done_c st' id.
 Proof.
-  intros H Hd. destruct (l_chks st' !! id) as [e'|] eqn:L'; [|left; reflexivity].
-  destruct (step_chks_back _ _ _ _ _ _ _ _ H L') as (e1 & L1 & S1). right. exists e'. split; [reflexivity|].
+  intros H Hd. destruct (l_chks st' !! id) as [e'|] eqn:L'; [|left; exact L'].
+  destruct (step_chks_back _ _ _ _ _ _ _ _ H L') as (e1 & L1 & S1). right. exists e'. split; [exact L'|].
   destruct Hd as [N|(e & L & D & S)]; [congruence|]. assert (e1 = e) by congruence. subst e1.
   destruct S1 as [->| ->]; cbn; auto.
 Qed.
@@ -150,7 +145,10 @@ Proof.
   assert (A1 : AllOk g (if l_node st then (st, c, [], [], false) else sync_node_info g st c [])).
   { destruct (l_node st) eqn:Ln.
     - apply AllOk_intro; auto. intros ev [].
-    - cbn. apply AllOk_intro; auto. intros ev [<-|[]]. reflexivity. }
+    - cbn. refine (conj eq_refl (conj eq_refl (conj _ (conj _ (conj _ eq_refl))))).
+      + eapply wf_local_ext; [| |exact W]; reflexivity.
+      + intros ev [<-|[]]. reflexivity.
+      + destruct (c_node c); reflexivity. }
   destruct (if l_node st then _ else _) as [[[[st1 c1] fs1] log1] stop] eqn:E1.
   assert (stop = false) as -> by (destruct A1 as (_ & -> & _); reflexivity).
   destruct (fold_svc_ok g os _ A1) as (A2 & D2 & _).
@@ -314,4 +312,250 @@ Proof.
       destruct (l_chks st !! id) as [x|], (c_chks c !! id); try discriminate; try reflexivity.
       destruct (ce_del x); [discriminate|]. destruct (ce_def x); discriminate.
   - exact Hnode.
+Qed.
+
+Theorem converges g os oc st c st' c' fs' log err :
+  wf_local st -> wf_cat c -> bind_ok st c ->
+  covers (l_svcs st) os -> covers (c_svcs c) os -> covers (l_chks st) oc -> covers (c_chks c) oc ->
+  sync_full g os oc st c [] = (st', c', fs', log, err) ->
+  err = false /\ converged g st c st' c'.
+Proof.
+  intros W Wc B C1 C2 C3 C4 E.
+  destruct (sync_full_ok_gen _ _ _ _ _ _ _ _ _ _ W Wc C1 C2 C3 C4 E) as (-> & _ & _ & _ & _ & H). auto.
+Qed.
+
+(* without [bind_ok] the first fault-free full sync may leave a stale check behind, but it
+   leaves nothing marked deleted, so the second one converges *)
+Theorem converges_second g os oc os2 oc2 st c st1 c1 fs1 log1 err1 st2 c2 fs2 log2 err2 :
+  wf_local st -> wf_cat c ->
+  covers (l_svcs st) os -> covers (c_svcs c) os -> covers (l_chks st) oc -> covers (c_chks c) oc ->
+  sync_full g os oc st c [] = (st1, c1, fs1, log1, err1) ->
+  covers (l_svcs st1) os2 -> covers (c_svcs c1) os2 -> covers (l_chks st1) oc2 -> covers (c_chks c1) oc2 ->
+  sync_full g os2 oc2 st1 c1 [] = (st2, c2, fs2, log2, err2) ->
+  err1 = false /\ err2 = false /\ converged g st1 c1 st2 c2.
+Proof.
+  intros W Wc C1 C2 C3 C4 E1 D1 D2 D3 D4 E2.
+  destruct (sync_full_ok_gen _ _ _ _ _ _ _ _ _ _ W Wc C1 C2 C3 C4 E1) as (-> & W1 & Wc1 & _ & Lc & _).
+  assert (B1 : bind_ok st1 c1).
+  { intros id e d r L D _ _. destruct (Lc id e L) as [D' _]. congruence. }
+  destruct (converges _ _ _ _ _ _ _ _ _ _ W1 Wc1 B1 D1 D2 D3 D4 E2) as [-> H]. auto.
+Qed.
+
+(* ------------------------------------------------------------------ C16_retry *)
+
+Definition pushed_svc (log : list event) (id : N) : Prop :=
+  exists ev, In ev log /\ e_kind ev = KSyncSvc /\ e_id ev = id.
+Definition pushed_chk (log : list event) (id : N) : Prop :=
+  exists ev, In ev log /\ ((e_kind ev = KSyncChk /\ e_id ev = id) \/ (e_kind ev = KSyncSvc /\ In id (e_pig ev))).
+Definition node_failed (log : list event) : Prop :=
+  exists ev, In ev log /\ e_kind ev = KNodeInfo /\ e_out ev = OFail.
+
+(* after the diff, a live entry that the catalog does not hold is out of sync, whatever its
+   flag said before (for instance "in sync" after an ACL refusal) *)
+Theorem retry_marked g st c :
+  (forall id e d, l_svcs (uss_apply g st c) !! id = Some e -> se_del e = false -> se_def e = Some d ->
+     ~ holds_svc c id d -> se_sync e = false) /\
+  (forall id e d, l_chks (uss_apply g st c) !! id = Some e -> ce_del e = false -> ce_def e = Some d ->
+     ~ holds_chk c id d -> ce_sync e = false).
+Proof.
+  split; intros id e d L D F N.
+  - destruct (se_sync e) eqn:S; [|reflexivity]. exfalso. apply N. eapply uss_held_svc; eauto.
+  - destruct (ce_sync e) eqn:S; [|reflexivity]. exfalso. apply N. eapply uss_held_chk; eauto.
+Qed.
+
+Lemma Step_svc_entry g st c st' c' ev id e :
+  Step g st c st' c' ev -> l_svcs st !! id = Some e -> se_del e = false ->
+  l_svcs st' !! id = Some e \/ (e_kind ev = KSyncSvc /\ e_id ev = id).
+Proof.
+  intros H L D. inversion H; subst; cbn; auto;
+    try (destruct (decide (id0 = id)) as [->|Hne]; [auto; congruence|left; rewrite ?lookup_insert_ne, ?lookup_delete_ne by exact Hne; exact L]).
+Qed.
+
+Lemma Step_chk_entry g st c st' c' ev id e :
+  Step g st c st' c' ev -> l_chks st !! id = Some e -> ce_del e = false ->
+  l_chks st' !! id = Some e \/ (e_kind ev = KSyncChk /\ e_id ev = id) \/ (e_kind ev = KSyncSvc /\ In id (e_pig ev)).
+Proof.
+  intros H L D.
+  assert (Pr : forall i, prune_chks i (l_chks st) !! id = Some e).
+  { intros i. apply prune_lookup_Some. split; [exact L|]. unfold prunable. rewrite D. reflexivity. }
+  assert (Mk : forall i tok, mark_pig g i tok (l_chks st) !! id = Some e \/ In id (keys (pig_of g i tok (l_chks st)))).
+  { intros i tok. rewrite mark_pig_lookup, L. destruct (is_pig g i tok e) eqn:P; [|auto]. right.
+    apply In_keys. rewrite pig_of_lookup, L, P. destruct (is_pig_spec _ _ _ _ P) as (d & F & _). rewrite F. eauto. }
+  inversion H; subst; cbn; auto;
+    try (destruct (Mk id0 (reg_token g (se_tok e0) (se_loc e0))); auto; fail);
+    try (destruct (decide (id0 = id)) as [->|Hne]; [auto; congruence|left; rewrite ?lookup_insert_ne, ?lookup_delete_ne by exact Hne; exact L]).
+Qed.
+
+Definition log_of (a : acc) : list event := snd (fst a).
+
+Lemma stepped_log g a a' : a' = a \/ stepped g a a' -> forall ev, In ev (log_of a) -> In ev (log_of a').
+Proof.
+  intros [->|H]; [auto|]. destruct a as [[[[st c] fs] log] err], a' as [[[[st' c'] fs'] log'] err'].
+  destruct H as (ev & er & _ & -> & _). cbn. intros x Hx. apply in_or_app. auto.
+Qed.
+
+Lemma step_svc_visit g a id e d :
+  l_svcs (st_of a) !! id = Some e -> se_del e = false -> se_sync e = false -> se_def e = Some d ->
+  pushed_svc (log_of (step_svc g a id)) id.
+Proof.
+  destruct a as [[[[st c] fs] log] err]. cbn. intros L D S F. unfold step_svc. rewrite L, D, S, F.
+  unfold sync_service, push. destruct (next fs) as [o fs1].
+  destruct o; try destruct (cat_register _ _ _ _ _); cbn;
+    (eexists; split; [apply in_or_app; right; left; reflexivity|cbn; auto]).
+Qed.
+
+Lemma step_chk_visit g a id e d :
+  l_chks (st_of a) !! id = Some e -> ce_del e = false -> ce_sync e = false -> ce_def e = Some d ->
+  pushed_chk (log_of (step_chk g a id)) id.
+Proof.
+  destruct a as [[[[st c] fs] log] err]. cbn. intros L D S F. unfold step_chk. rewrite L, D, S, F.
+  unfold sync_check, push. destruct (next fs) as [o fs1].
+  destruct o; try destruct (cat_register _ _ _ _ _); cbn;
+    (eexists; split; [apply in_or_app; right; left; reflexivity|cbn; auto]).
+Qed.
+
+Lemma stepped_svc_entry g a a' id e :
+  a' = a \/ stepped g a a' -> se_del e = false ->
+  l_svcs (st_of a) !! id = Some e \/ pushed_svc (log_of a) id ->
+  l_svcs (st_of a') !! id = Some e \/ pushed_svc (log_of a') id.
+Proof.
+  intros [->|H] D; [auto|]. destruct a as [[[[st c] fs] log] err], a' as [[[[st' c'] fs'] log'] err'].
+  destruct H as (ev & er & Hs & -> & _). cbn. intros [L|(x & Hx & P)].
+  - destruct (Step_svc_entry _ _ _ _ _ _ _ _ Hs L D) as [?|?]; [auto|].
+    right. exists ev. split; [apply in_or_app; right; left; reflexivity|assumption].
+  - right. exists x. split; [apply in_or_app; auto|assumption].
+Qed.
+
+Lemma stepped_chk_entry g a a' id e :
+  a' = a \/ stepped g a a' -> ce_del e = false ->
+  l_chks (st_of a) !! id = Some e \/ pushed_chk (log_of a) id ->
+  l_chks (st_of a') !! id = Some e \/ pushed_chk (log_of a') id.
+Proof.
+  intros [->|H] D; [auto|]. destruct a as [[[[st c] fs] log] err], a' as [[[[st' c'] fs'] log'] err'].
+  destruct H as (ev & er & Hs & -> & _). cbn. intros [L|(x & Hx & P)].
+  - destruct (Step_chk_entry _ _ _ _ _ _ _ _ Hs L D) as [?|?]; [auto|].
+    right. exists ev. split; [apply in_or_app; right; left; reflexivity|assumption].
+  - right. exists x. split; [apply in_or_app; auto|assumption].
+Qed.
+
+Lemma fold_svc_retry g os a id e d :
+  se_del e = false -> se_sync e = false -> se_def e = Some d ->
+  l_svcs (st_of a) !! id = Some e \/ pushed_svc (log_of a) id ->
+  (l_svcs (st_of (fold_left (step_svc g) os a)) !! id = Some e /\ ~ In id os) \/
+  pushed_svc (log_of (fold_left (step_svc g) os a)) id.
+Proof.
+  intros D S F. revert a. induction os as [|x os IH]; intros a H; cbn [fold_left].
+  - destruct H; [left; split; [assumption|intros []]|auto].
+  - destruct (decide (x = id)) as [->|Hne].
+    + assert (P : pushed_svc (log_of (step_svc g a id)) id).
+      { destruct H as [L|(y & Hy & P)]; [eapply step_svc_visit; eauto|].
+        exists y. split; [eapply stepped_log; [apply step_svc_stepped|exact Hy]|exact P]. }
+      destruct (IH _ (or_intror P)) as [[_ ?]|?]; [|auto].
+      destruct (IH _ (or_intror P)) as [[L _]|?]; auto.
+      right. clear -P. revert P. generalize (step_svc g a id). induction os as [|y os IH']; intros b P; cbn; [exact P|].
+      apply IH'. destruct P as (z & Hz & P). exists z. split; [eapply stepped_log; [apply step_svc_stepped|exact Hz]|exact P].
+    + destruct (IH (step_svc g a x)) as [[L Nin]|P]; [eapply stepped_svc_entry; [apply step_svc_stepped|exact D|exact H]| |auto].
+      left. split; [exact L|]. intros [?|?]; [congruence|contradiction].
+Qed.
+
+Lemma fold_chk_keeps_pushed_svc g oc a id :
+  pushed_svc (log_of a) id -> pushed_svc (log_of (fold_left (step_chk g) oc a)) id.
+Proof.
+  revert a. induction oc as [|y oc IH]; intros a P; cbn; [exact P|].
+  apply IH. destruct P as (z & Hz & P). exists z. split; [eapply stepped_log; [apply step_chk_stepped|exact Hz]|exact P].
+Qed.
+
+Lemma fold_svc_chk_entry g os a id e :
+  ce_del e = false ->
+  l_chks (st_of a) !! id = Some e \/ pushed_chk (log_of a) id ->
+  l_chks (st_of (fold_left (step_svc g) os a)) !! id = Some e \/ pushed_chk (log_of (fold_left (step_svc g) os a)) id.
+Proof.
+  intros D. revert a. induction os as [|x os IH]; intros a H; cbn [fold_left]; [exact H|].
+  apply IH. eapply stepped_chk_entry; [apply step_svc_stepped|exact D|exact H].
+Qed.
+
+Lemma fold_chk_retry g oc a id e d :
+  ce_del e = false -> ce_sync e = false -> ce_def e = Some d -> In id oc ->
+  l_chks (st_of a) !! id = Some e \/ pushed_chk (log_of a) id ->
+  pushed_chk (log_of (fold_left (step_chk g) oc a)) id.
+Proof.
+  intros D S F. revert a. induction oc as [|x oc IH]; intros a Hin H; [destruct Hin|]. cbn [fold_left].
+  assert (Keep : forall oc b, pushed_chk (log_of b) id -> pushed_chk (log_of (fold_left (step_chk g) oc b)) id).
+  { clear. intros oc. induction oc as [|y oc IH']; intros b P; cbn; [exact P|].
+    apply IH'. destruct P as (z & Hz & P). exists z. split; [eapply stepped_log; [apply step_chk_stepped|exact Hz]|exact P]. }
+  destruct (decide (x = id)) as [->|Hne].
+  - apply Keep. destruct H as [L|(y & Hy & P)]; [eapply step_chk_visit; eauto|].
+    exists y. split; [eapply stepped_log; [apply step_chk_stepped|exact Hy]|exact P].
+  - destruct Hin as [?|Hin]; [contradiction|].
+    apply IH; [exact Hin|]. eapply stepped_chk_entry; [apply step_chk_stepped|exact D|exact H].
+Qed.
+
+(* a partial sync pushes every visited live entry that is out of sync, unless the node-info
+   registration failed first (SyncChanges returns at once in that case) *)
+Theorem retry_changes g os oc st c fs st' c' fs' log err :
+  sync_changes g os oc st c fs = (st', c', fs', log, err) ->
+  (forall id e d, l_svcs st !! id = Some e -> se_del e = false -> se_sync e = false -> se_def e = Some d ->
+     In id os -> pushed_svc log id \/ node_failed log) /\
+  (forall id e d, l_chks st !! id = Some e -> ce_del e = false -> ce_sync e = false -> ce_def e = Some d ->
+     In id oc -> pushed_chk log id \/ node_failed log).
+Proof.
+  intros E. unfold sync_changes in E.
+  set (a1 := if l_node st then (st, c, fs, [], false) else sync_node_info g st c fs) in E.
+  assert (H1 : (l_svcs (st_of a1) = l_svcs st /\ l_chks (st_of a1) = l_chks st) /\
+               (snd a1 = true -> node_failed (log_of a1))).
+  { subst a1. destruct (l_node st); [cbn; split; [auto|discriminate]|].
+    unfold sync_node_info. destruct (next fs) as [o fs1].
+    destruct o; cbn; (split; [auto|]); try discriminate;
+      intros _; eexists; (split; [left; reflexivity|cbn; auto]). }
+  destruct H1 as [[Es Ec] Hstop].
+  destruct a1 as [[[[st1 c1] fs1] log1] stop] eqn:Ea. cbn in Es, Ec, Hstop.
+  destruct stop.
+  - injection E as <- <- <- <- <-. split; intros; right; auto.
+  - split.
+    + intros id e d L D S F Hin. left.
+      assert (H0 : l_svcs (st_of (st1, c1, fs1, log1, false)) !! id = Some e \/ pushed_svc (log_of (st1, c1, fs1, log1, false)) id)
+        by (left; cbn; rewrite Es; exact L).
+      destruct (fold_svc_retry g os _ id e d D S F H0) as [[_ Nin]|P]; [contradiction|].
+      pose proof (fold_chk_keeps_pushed_svc g oc _ id P) as P'. rewrite E in P'. exact P'.
+    + intros id e d L D S F Hin. left.
+      assert (H0 : l_chks (st_of (st1, c1, fs1, log1, false)) !! id = Some e \/ pushed_chk (log_of (st1, c1, fs1, log1, false)) id)
+        by (left; cbn; rewrite Ec; exact L).
+      pose proof (fold_chk_retry g oc _ id e d D S F Hin (fold_svc_chk_entry g os _ id e D H0)) as P'.
+      rewrite E in P'. exact P'.
+Qed.
+
+Lemma pushed_svc_app la lb id : pushed_svc lb id -> pushed_svc (la ++ lb) id.
+Proof. intros (x & Hx & P). exists x. split; [apply in_or_app; auto|exact P]. Qed.
+Lemma pushed_chk_app la lb id : pushed_chk lb id -> pushed_chk (la ++ lb) id.
+Proof. intros (x & Hx & P). exists x. split; [apply in_or_app; auto|exact P]. Qed.
+Lemma node_failed_app la lb : node_failed lb -> node_failed (la ++ lb).
+Proof. intros (x & Hx & P). exists x. split; [apply in_or_app; auto|exact P]. Qed.
+
+Lemma classic_node_failed log : node_failed log \/ ~ node_failed log.
+Proof.
+  induction log as [|x log IH].
+  - right. intros (y & [] & _).
+  - destruct IH as [(y & Hy & P)|N]; [left; exists y; split; [right; exact Hy|exact P]|].
+    destruct (e_kind x) eqn:K; try (right; intros (y & [<-|Hy] & P1 & P2); [congruence|apply N; exists y; auto]).
+    destruct (e_out x) eqn:O; try (right; intros (y & [<-|Hy] & P1 & P2); [congruence|apply N; exists y; auto]).
+    left. exists x. split; [left; reflexivity|auto].
+Qed.
+
+(* a full sync whose reads succeed pushes every live entry that the catalog does not hold
+   (whatever its flag said, e.g. "in sync" after an ACL refusal) *)
+Theorem retry_full g os oc st c fs st' c' fs' log err :
+  sync_full g os oc st c fs = (st', c', fs', log, err) ->
+  (st' = st /\ c' = c /\ err = true) \/ node_failed log \/
+  ((forall id e d, l_svcs (uss_apply g st c) !! id = Some e -> se_del e = false -> se_def e = Some d ->
+      ~ holds_svc c id d -> In id os -> pushed_svc log id) /\
+   (forall id e d, l_chks (uss_apply g st c) !! id = Some e -> ce_del e = false -> ce_def e = Some d ->
+      ~ holds_chk c id d -> In id oc -> pushed_chk log id)).
+Proof.
+  intros E. apply sync_full_cases in E as [(-> & -> & -> & _)|(fs1 & la & lb & _ & Hla & E & ->)]; [auto|].
+  destruct (retry_changes _ _ _ _ _ _ _ _ _ _ _ E) as [Hs Hc].
+  destruct (retry_marked g st c) as [Ms Mc].
+  destruct (classic_node_failed lb) as [F|NF]; [right; left; apply node_failed_app; exact F|].
+  right; right. split.
+  - intros id e d L D F N Hin. destruct (Hs id e d L D (Ms id e d L D F N) F Hin) as [P|P]; [apply pushed_svc_app; exact P|contradiction].
+  - intros id e d L D F N Hin. destruct (Hc id e d L D (Mc id e d L D F N) F Hin) as [P|P]; [apply pushed_chk_app; exact P|contradiction].
 Qed.
